@@ -10,7 +10,7 @@ func init() { register("C17", checkC17) }
 
 func checkC17(c *Check) {
 	c.Explain = "Lifecycle rules read off the state tables and the per-method dispatch: the set of states each object can be in is the closure of its transition table (literal in the package initialiser) plus errorState; for every public method the value set of the state word at each ErrInternalUnhandledState exit is computed and must be disjoint from it (R17.1); Close and the end of stream perform their terminal transitions (R17.2); configuration fields are written only by Option closures, hence persist across Reset (R17.3); Reset re-arms state, frame and stream unconditionally (R17.4); Blocks.close always clears the error latch so that a Reset object starts clean (R17.5); the shutdown sentinel never targets a goroutine that is gone (R17.6); data is emitted in call order: Close flushes before the trailer, a caller buffer is compressed in place only when nothing is pending (R17.7)."
-	c.Uncov = []string{"the bytes emitted per call sequence; 'indistinguishable from new' beyond the fields covered by R17.3/R17.4", "that writes after Close return a non-nil error (the closed arm returns the latched error, which is nil after a clean Close)", "sequences longer than one transition are covered by the per-state tables, not enumerated"}
+	c.Uncov = []string{"the bytes emitted per call sequence; 'indistinguishable from new' beyond the fields covered by R17.3/R17.4", "sequences longer than one transition are covered by the per-state tables, not enumerated"}
 	c.Trusted = trustedSSA
 	for k, v := range map[string]string{"R17.1": "dispatch totality per reachable state", "R17.2": "terminal transitions", "R17.3": "option fields written only by Option closures", "R17.4": "Reset re-arms", "R17.5": "Blocks.close clears the latch", "R17.6": "sentinel needs a live goroutine", "R17.7": "call order of data"} {
 		c.RuleDoc[k] = v
@@ -29,6 +29,8 @@ func checkC17(c *Check) {
 	ruleDirectWrite(c, p, "R17.7")
 	ruleBuffersRefetched(c, p, "R17.8", "Writer", "Reader", "CompressingReader")
 	ruleStreamFieldsRearmed(c, p, "R17.9")
+	ruleWritesFailAfterClose(c, p, "R17.13")
+	c.RuleDoc["R17.13"] = "after Close, Write and ReadFrom return a non-nil error"
 	rulePendingConsumedOnce(c, p, "R17.12")
 	c.RuleDoc["R17.12"] = "pending bytes are emitted once and before anything submitted later (= R02.13)"
 	ruleNestedRearm(c, p, "R17.11")
